@@ -34,7 +34,7 @@ RULE = ("grid (same for every seed): gpe {0,2,-2} x gie {0,3} x gff {0,1} x outp
         "1e308) and inf / -inf / nan (8%); every sequence also drives a twin controller whose error sum is perturbed "
         "before each set point jump; distinct = distinct (parameters, sequence); non-trivial = at least two computing "
         "updates")
-RULE = __import__("vf.core", fromlist=["rule_add"]).rule_add(RULE, 'also controllers built on a partly configured parm share, inputs a few ulp beside the set point under a wrap')
+RULE = __import__("vf.core", fromlist=["rule_add"]).rule_add(RULE, 'also controllers built on a partly configured parm share, inputs a few ulp beside the set point under a wrap, sensor dropouts (input None) also at set point jumps')
 META = {"engine": "C function",
         "technique": "limit invariants and wrap predicate after every real update + metamorphic twin for the integrator reset",
         "level_text": "exploration: a small parameter/input grid completely, longer sequences sampled",
